@@ -1229,6 +1229,45 @@ func c16SpanFits(c *Ctx, p *Prog) {
 			var table ssa.Value // the widths table: the slice, or the cell holding it
 			sumOnLeft := false
 			for side, v := range []ssa.Value{cmp.X, cmp.Y} {
+				// the sum taken by a helper of the package over a slice it is handed (sumWidths(ws, first, end))
+				if call, ok := v.(*ssa.Call); ok {
+					if h := call.Call.StaticCallee(); h != nil && h.Pkg == fn.Pkg && h.Blocks != nil && isInteger(v.Type()) {
+						for _, hb := range h.Blocks {
+							ret, ok := hb.Instrs[len(hb.Instrs)-1].(*ssa.Return)
+							if !ok || len(ret.Results) != 1 {
+								continue
+							}
+							hphi, ok := ret.Results[0].(*ssa.Phi)
+							if !ok {
+								continue
+							}
+							for _, e := range hphi.Edges {
+								add, ok := e.(*ssa.BinOp)
+								if !ok || add.Op != token.ADD || (add.X != ssa.Value(hphi) && add.Y != ssa.Value(hphi)) {
+									continue
+								}
+								other := add.Y
+								if add.Y == ssa.Value(hphi) {
+									other = add.X
+								}
+								if ia, ok := loadAddr(other).(*ssa.IndexAddr); ok {
+									for pi, prm := range h.Params {
+										if ia.X == ssa.Value(prm) && pi < len(call.Call.Args) {
+											if st, ok := prm.Type().Underlying().(*types.Slice); ok && isInteger(st.Elem()) {
+												table = call.Call.Args[pi]
+												if la := loadAddr(table); la != nil {
+													table = la
+												}
+												sumOnLeft = side == 0
+											}
+										}
+									}
+								}
+							}
+						}
+					}
+					continue
+				}
 				phi, ok := v.(*ssa.Phi)
 				if !ok || !isInteger(phi.Type()) {
 					continue
